@@ -79,6 +79,12 @@ type run struct {
 	events       []string
 
 	stack    []*ssa.Function
+	names    map[*value]string
+	watch    map[*value]string
+	watchMap map[*smap]string
+	trace    []string
+	tracing  bool
+	traces   []traceRec
 	onceDone map[*value]bool
 	syncIDs  map[*value]int
 	syncLog  []syncEv
@@ -388,6 +394,8 @@ type entryResult struct {
 	Samples      []obligRec `json:"samples"`
 	ProvedLabels map[string]int `json:"proved_labels"`
 	Truncated    bool       `json:"truncated"`
+	Traces       []traceRec `json:"traces,omitempty"`
+	RaceQueries  int        `json:"race_queries,omitempty"`
 }
 
 // explore runs all paths of one entry function.
@@ -400,6 +408,7 @@ func (e *engine) explore(entry *ssa.Function, args []value, qlog func(int) *stri
 	cond := sync.NewCond(&mu)
 	inconcl := map[string]int{}
 	violKey := map[string]bool{}
+	traceSeen := map[string]bool{}
 
 	worker := func(id int) {
 		sol, err := NewSolver(e.solverBin, e.solverTimeout, nil)
@@ -481,6 +490,13 @@ func (e *engine) explore(entry *ssa.Function, args []value, qlog func(int) *stri
 				e.lazyInits[p] = true
 			}
 			e.mu.Unlock()
+			for _, t := range r.traces {
+				k := t.Op + "|" + strings.Join(t.Events, ";")
+				if !traceSeen[k] {
+					traceSeen[k] = true
+					res.Traces = append(res.Traces, t)
+				}
+			}
 			if r.unknownSeen {
 				inconcl["solver answered unknown on a feasibility query (branch kept)"]++
 			}
@@ -517,6 +533,9 @@ func (e *engine) explore(entry *ssa.Function, args []value, qlog func(int) *stri
 	}
 	e.mu.Unlock()
 	sort.Strings(res.Covers)
+	if len(res.Traces) > 0 {
+		e.composeRaces(res)
+	}
 	res.WallS = time.Since(t0).Seconds()
 	return res
 }
@@ -548,6 +567,9 @@ func (e *engine) runPath(sol *Solver, entry *ssa.Function, args []value, prefix 
 		facts:     map[string]string{},
 		maxLen:    e.maxLen,
 		onceDone:  map[*value]bool{},
+		names:     map[*value]string{},
+		watch:     map[*value]string{},
+		watchMap:  map[*smap]string{},
 		syncIDs:   map[*value]int{},
 		held:      map[*value]int{},
 	}
